@@ -1504,6 +1504,15 @@ func (ex *Exec) doReturn(s *State, in *ssa.Return) []*State {
 	if !fr.RetStay {
 		caller.Idx++
 	}
+	if fr.CallInstr != nil {
+		var rv Val
+		if len(res) == 1 {
+			rv = res[0]
+		} else if len(res) > 1 {
+			rv = TupleV(res)
+		}
+		ex.afterCall(s, fr.CallInstr, rv)
+	}
 	return nil
 }
 
